@@ -433,6 +433,13 @@ func runOne(sp solverSpec, text string, timeout time.Duration, seed int, ctx con
 	cmd.Run()
 	ms := time.Since(start).Milliseconds()
 	o := out.String()
+	for strings.HasPrefix(o, "WARNING") {
+		if i := strings.Index(o, "\n"); i >= 0 {
+			o = o[i+1:]
+		} else {
+			break
+		}
+	}
 	first := strings.TrimSpace(strings.SplitN(o, "\n", 2)[0])
 	r := Result{Solver: sp.name, Ms: ms, Output: o}
 	switch {
